@@ -955,6 +955,10 @@ def run_entry_points(ctl: explorer.Ctl, cfg: Dict[str, Any]) -> Dict[str, Any]:
             # the tracked connection object: version and batching mode of the agreed version, when the call returns
             want_state = (answered, answered < "2025-06-18")
             got = tracked.get("at-return")
+            import re as _re
+            if not _re.fullmatch(r"\d{4}-\d{2}-\d{2}", answered or ""):
+                # an invented revision name that is no date: which batching mode belongs to it is not defined; the version is
+                got = [(g[0], want_state[1]) for g in (got or [])]
             if not got:
                 raise core.HarnessError(f"no connection object observed for {cfg}")
             if any(g != want_state for g in got):
@@ -1174,6 +1178,12 @@ def run(tier: str, only=None) -> core.Result:
           for sup in (["2025-06-18"], ["2024-11-05"], ["2025-03-26", "2024-11-05"], ["2099-01-01", "2025-03-26"], ["2024-11-05", "2025-06-18"])
           for pref in (None, sup[-1], "2025-06-18", "1999-12-31")
           for a in ("echo", "2025-06-18", "2024-11-05", "1999-12-31")]
+    # the caller's universe need not consist of dates: invented revision names, alone or mixed with real ones
+    ep += [{"entry": e, "list": sup, "pref": pref, "answer": a}
+           for e in ("transports.stdio", "mcp_client")
+           for sup in (["draft-7"], ["draft-7", "draft-6"], ["v2"], ["2025-06-18", "draft-7"], ["draft-7", "2024-11-05"], ["20250618"], [" 2025-06-18"])
+           for pref in (None, sup[-1], "2025-06-18")
+           for a in ("echo", "draft-6", "2025-06-18", "2024-11-05", "2025-03-26")]
     ep += [{"entry": e, "list": sup, "pref": None, "answer": a, "framing": fr}
            for e in ("transports.stdio", "mcp_client", "StdioTransport+MCPClient")
            for sup in (["2025-06-18", "2024-11-05"], ["2025-03-26"])
